@@ -4,6 +4,8 @@ import (
 	"fmt"
 	"os"
 	"runtime"
+
+	"ffverif/memongo"
 	"strings"
 	"time"
 
@@ -45,6 +47,8 @@ type Scenario struct {
 	faultMode     string
 	foreign       bool // populate instances owned by another worker
 	leftBehind    bool // the leader's left-behind sweep races the owner starting the instance
+	wdAges        []int
+	memFaultNth   int
 	wdAt          int  // step at which the clock jumps and an expired sweep races a live run (-1 never)
 	desc          string
 }
@@ -214,6 +218,17 @@ func genScenario(rng *Rng, kind string) *Scenario {
 		s.leftBehind = true
 	case "wdrace":
 		s.wdAt = 3 + rng.Intn(25)
+		s.wdAges = []int{12, 20, 100, 100}
+	case "partialinit":
+		// one insert of the instantiation batch fails in the database: the batch is partially applied and a
+		// later watch round resumes it; later the clock advances a little and the expired sweep runs
+		s.memFaultNth = 1 + rng.Intn(len(s.tasks))
+		s.wdAt = 3 + rng.Intn(25)
+		s.wdAges = []int{12, 20}
+	case "wdearly":
+		// the clock advances, but by less than any task's timeout + grace: the sweep must select nothing
+		s.wdAt = 3 + rng.Intn(25)
+		s.wdAges = []int{12, 20}
 	case "foreign":
 		s.foreign = true
 		s.retries = 2
@@ -325,6 +340,22 @@ func runScenario(w *World, rng *Rng, s *Scenario, maxSteps int) *runResult {
 	if s.faultNth > 0 {
 		e.faults = append(e.faults, &faultSpec{match: s.faultMatch, nth: s.faultNth, mode: s.faultMode})
 	}
+	w.Srv.PreApply = nil
+	if s.memFaultNth > 0 {
+		e.memFaultNth = s.memFaultNth
+		w.Srv.PreApply = func(op *memongo.Op) string {
+			if op.Client == "store" && op.Cmd == "insert" && op.Coll == "task_instance" {
+				e.mu.Lock()
+				e.memFaultSeen++
+				hit := e.memFaultSeen == e.memFaultNth
+				e.mu.Unlock()
+				if hit {
+					return "fail"
+				}
+			}
+			return ""
+		}
+	}
 	kp := w.Keepers["worker-1"]
 	mod.SetKeeper(kp)
 	must(kp.VerifHeartBeat())
@@ -372,8 +403,9 @@ func runScenario(w *World, rng *Rng, s *Scenario, maxSteps int) *runResult {
 	}
 	// scenario facts for the monitors: pre-checks per task, variables per instance
 	for _, t := range s.tasks {
-		e.log(L(I(26), I(e.nm.Id(t.id)), checksSx(t.pre, e.nm)), "S checks "+t.id)
+		e.log(L(I(26), I(e.nm.Id(t.id)), checksSx(t.pre, e.nm), I(t.timeout), strIds(t.deps, e.nm)), "S task "+t.id)
 	}
+	e.log(L(I(33), I(30)), "S default timeout 30s")
 	for _, d := range e.dump("dag_instance") {
 		vars := map[string]string{}
 		if v, ok := getField(d, "vars"); ok {
@@ -442,8 +474,9 @@ func runScenario(w *World, rng *Rng, s *Scenario, maxSteps int) *runResult {
 		}
 		if s.wdAt >= 0 && steps >= s.wdAt && !wdDone && e.aliveRuns() > 0 {
 			wdDone = true
-			w.Srv.Age(100 * time.Second)
-			e.log(L(I(22), I(100)), "T age 100s")
+			ageBy := s.wdAges[rng.Intn(len(s.wdAges))] // 12 / 20 s: nothing is overdue yet (timeouts are >= 20 s, grace 5 s)
+			w.Srv.Age(time.Duration(ageBy) * time.Second)
+			e.log(L(I(22), I(ageBy)), fmt.Sprintf("T age %ds", ageBy))
 			must(kp.VerifHeartBeat())
 			e.spawn(3, "watchdog-expired", func() string {
 				if err := wd.VerifExpiredRound(); err != nil {
@@ -689,6 +722,7 @@ func runScenario(w *World, rng *Rng, s *Scenario, maxSteps int) *runResult {
 			e.foreignDiff = "before: " + foreignBefore + "\n after: " + after
 		}
 	}
+	w.Srv.PreApply = nil
 	// abandon whatever is still parked so that the next scenario starts clean
 	e.crash()
 	return &runResult{journal: e.journal, jtxt: e.jtxt, hung: e.hung, steps: steps, e: e}
